@@ -221,65 +221,27 @@ def run(ctx):
     # ------------------------------------------------------------------ R2
     fu = repo.mod(FU)
     ou = fu.func("_one_center_u")
-    gss, gpp, gsp, gp2, hsp = sp.symbols("gss gpp gsp gp2 hsp", real=True)
-    Pss, Ppp, Pptot, Psp, Ppq = sp.symbols("Pss Ppp Pptot Psp Ppq", real=True)
-    SPEC = {
-        "ss": sp.Rational(1, 2) * Pss * gss + Pptot * (gsp - hsp / 2),
-        "pp": Pss * (gsp - hsp / 2) + sp.Rational(1, 2) * Ppp * gpp + (Pptot - Ppp) * (sp.Rational(5, 4) * gp2 - sp.Rational(1, 4) * gpp),
-        "sp": Psp * (sp.Rational(3, 2) * hsp - sp.Rational(1, 2) * gsp),
-        "pq": Ppq * (sp.Rational(3, 4) * gpp - sp.Rational(5, 4) * gp2),
-    }
-    env = {"gss": gss, "gpp": gpp, "gsp": gsp, "gp2": gp2, "hsp": hsp, "Pptot": Pptot, "Pspin_ptot": Pptot / 2}
-
-    def elem(idx):
-        a, b = idx
-        if (a, b) == ("0", "0"):
-            return Pss
-        if a == "0":
-            return Psp
-        if a == b:
-            return Ppp
-        return Ppq
-
-    def sub(n, rec):
-        base = norm(n.value)
-        sl_ = n.slice
-        elts = [norm(e) for e in (sl_.elts if isinstance(sl_, ast.Tuple) else [sl_])][-2:]
-        e = elem(tuple(elts))
-        if base == "Ptot_d":
-            return e
-        if base in ("Pspin_d", "P_opp_spin_d"):
-            return e / 2
-        raise AnalysisError(f"_one_center_u: subscript {norm(n)}")
-    funcs = torch_funcs()
-    funcs["[]"] = sub
-    n2 = 0
-    for st in ast.walk(ou):
-        if isinstance(st, ast.Assign) and isinstance(st.targets[0], ast.Name) and st.targets[0].id in ("pp_fac_d", "sp_fac", "pp_fac_off"):
-            env[st.targets[0].id] = to_sympy(st.value, env, funcs)
-    pp = [st for st in ast.walk(ou) if isinstance(st, ast.Assign) and norm(st.targets[0]) in ("Pptot", "Pspin_ptot")]
-    for st in pp:
-        t = norm(st.value).replace(" ", "")
-        base = "Ptot_d" if norm(st.targets[0]) == "Pptot" else "Pspin_d"
-        ctx.check(t == f"{base}[...,1,1]+{base}[...,2,2]+{base}[...,3,3]", "R2", fu, st, "_one_center_u", st, f"{norm(st.targets[0])} sums the three p populations", f"{norm(st.targets[0])} = {norm(st.value)}")
-    opp = [st for st in ast.walk(ou) if isinstance(st, ast.Assign) and norm(st.targets[0]) == "P_opp_spin_d"]
-    ctx.check(bool(opp) and norm(opp[0].value).replace(" ", "") == "Pspin_d[[1,0]]", "R2", fu, opp[0] if opp else ou, "_one_center_u", "opposite spin", "opposite-spin density swaps alpha and beta",
-              "opposite-spin density selection changed")
-    for st in ast.walk(ou):
-        if isinstance(st, ast.Assign) and isinstance(st.targets[0], ast.Subscript) and norm(st.targets[0].value) == "tmp":
-            elts = [norm(e) for e in st.targets[0].slice.elts][-2:]
-            kind = "ss" if elts == ["0", "0"] else "sp" if elts[0] == "0" else "pp" if elts[0] == elts[1] else "pq"
-            e = to_sympy(st.value, env, funcs)
-            n2 += 1
-            ctx.check(identically(sp.expand(e - SPEC[kind]), 0), "R2", fu, st, "_one_center_u", st,
-                      f"unrestricted F_{kind} with P_alpha = P_beta = P/2 equals the restricted NDDO formula",
-                      f"unrestricted one-centre term {kind} reduces to {sp.simplify(e)} for a closed shell, the restricted formula is {SPEC[kind]}: a UHF singlet "
-                      f"does not reproduce the RHF energy")
-    if n2 < 4:
-        raise AnalysisError("_one_center_u terms not found")
-    # the same terms against the first-principles oracle for arbitrary spin densities (shared with C06-R3)
+    # both one-centre routines are interpreted element by element (sa.nddo) and compared with the first-principles NDDO sums for
+    # arbitrary densities (shared with C06-R3); the closed-shell reduction is then checked directly between the two pieces of code
     from .c06 import one_center_first_principles
-    one_center_first_principles(ctx, repo, "R2")
+    code, codeu, Pd, Pa, Pb = one_center_first_principles(ctx, repo, "R2")
+    half = {}
+    for i in range(4):
+        for j in range(4):
+            half[Pa[i][j]] = Pd[i][j] / 2
+            half[Pb[i][j]] = Pd[i][j] / 2
+    n2 = 0
+    for (i, j), v in sorted(codeu.items()):
+        if (i, j) not in code:
+            continue
+        n2 += 1
+        d = sp.expand(v.subs(half) - code[(i, j)])
+        ctx.check(d == 0, "R2", fu, ou, "_one_center_u", f"closed-shell reduction of F^s[{i}][{j}]",
+                  f"unrestricted element ({i},{j}) with P_alpha = P_beta = P/2 equals the restricted element of fock._one_center",
+                  f"unrestricted one-centre element ({i},{j}) reduces to {sp.factor(v.subs(half))} for a closed shell but fock._one_center gives {sp.factor(code[(i, j)])}: "
+                  f"a UHF singlet does not reproduce the RHF energy")
+    if n2 < 10:
+        raise AnalysisError("_one_center_u / _one_center elements not comparable")
     tu = fu.func("_two_center_u")
     pp = [st for st in ast.walk(tu) if isinstance(st, ast.Assign) and norm(st.targets[0]) == "Pp" and "mask" in norm(st.value)]
     ctx.check(bool(pp) and norm(pp[0].value).replace(" ", "") == "-P_spin[:,mask]", "R2", fu, pp[0] if pp else tu, "_two_center_u", pp[0] if pp else "Pp",
